@@ -1,7 +1,8 @@
 (* Properties_C19_yl.v - property C19 (a context can be rebuilt from its own yang-library description):
    theorem statements only.
    Models: ModHash.v (ly_ctx_get_modules_hash with lysp_feature_next, change counter; as of /repo commits c8adb05,
-   d4e18d7), YangLib.v (ly_ctx_get_yanglib_data, ly_ctx_new_yldata, ly_ctx_load_module); proofs: ModHashP.v, YangLibP.v.
+   d4e18d7), YangLib.v (ly_ctx_get_yanglib_data with ylib_feature / ylib_deviation / ylib_submodules, ly_ctx_new_yldata,
+   ly_ctx_load_module, lysp_load_submodules as of 272016c); proofs: ModHashP.v, YangLibP.v.
    modhash = modhash_gen true is the code as it is (feature iterator index reset per module), mod_stream the byte
    stream it hashes; modhash_gen false is the former code and only appears in the regression example. *)
 From LY Require Import Base HashFn ModHash ModHashP YangLib YangLibP.
